@@ -402,7 +402,7 @@ class World:
         """Run fn(); expect is 'ok', 'raise' (any exception) or 'IndexError'.
         Returns (raised?, value or exception)."""
         signal.signal(signal.SIGALRM, _on_alarm)
-        signal.setitimer(signal.ITIMER_REAL, CALL_GUARD_S)
+        signal.setitimer(signal.ITIMER_REAL, CALL_GUARD_S, 2.0)   # repeating: a swallowed alarm fires again
         try:
             try:
                 val = fn()
